@@ -28,7 +28,7 @@ Section S.
   Definition light (e : ev) : bool :=
     match e with
     | EvNeedRead | EvGate | EvPassEnd | EvPop | EvPopErr | EvConsume | EvPollEmpty | EvTakeErr
-    | EvRespond _ _ | EvBodyChunk _ | EvBodyEnd _ | EvAccept _ | EvTooLarge => true
+    | EvRespond _ _ | EvBodyChunk _ | EvBodyEnd _ | EvAccept _ | EvTooLarge | EvDrop => true
     | _ => false
     end.
 
@@ -54,7 +54,7 @@ Section S.
     induction fuel as [|fuel IH]; intro x; cbn [run_handler].
     - cbn [fst]. apply same_bad with (y := x); [apply same_refl|reflexivity..].
     - destruct (cur x) as [|a r]; [apply same_refl|].
-      destruct a as [| | | |h b].
+      destruct a as [| | | | |h b].
       + cbn [fst]. wrap x. apply same_refl.
       + destruct (ticket x) as [t|].
         * destruct (t <? hwc x).
@@ -79,6 +79,9 @@ Section S.
                 ** cbn [fst]. wrap (do_ev c EvPollEmpty x). apply same_do_ev. reflexivity.
           -- eapply same_trans; [|apply IH]. wrap (do_ev c EvConsume x). apply same_do_ev. reflexivity.
         * eapply same_trans; [|apply IH]. wrap x. apply same_refl.
+      + eapply same_trans; [|apply IH]. destruct (hch (m x)).
+        * wrap (do_ev c EvDrop x). apply same_do_ev. reflexivity.
+        * wrap x. apply same_refl.
       + cbn [fst]. wrap x. apply same_refl.
   Qed.
 
@@ -420,3 +423,257 @@ Section Wake.
         destruct (need_read_status (m x1)) as [[| |]|]; try discriminate. exfalso. apply Hnp. reflexivity.
   Qed.
 End Wake.
+
+Section WF.
+  Variable c : cfg.
+  Variable F : nat.
+
+  (* the well-formedness premises of [no_lost_decode_wake] are invariants of [poll]: they hold
+     for every state the composer reaches from [sim_init] over a stream with non-empty heads *)
+  Lemma poll_preserves_wf x r x' p :
+    poll c F x r = (x', p) -> G x -> Forall pos_head (todo x) ->
+    G x' /\ Forall pos_head (todo x').
+  Proof.
+    intros Hpoll HG HP. unfold poll in Hpoll. fold (env x r) in Hpoll.
+    assert (G0 : G (env x r)) by exact HG.
+    assert (P0 : Forall pos_head (todo (env x r))) by exact HP.
+    destruct (shut (env x r)).
+    - unfold poll_shutdown_branch, poll_flush_c in Hpoll.
+      pose proof (flush_loop_same c (S (length (wscript (env x r)))) (env x r)) as Sf.
+      destruct (flush_loop c (S (length (wscript (env x r)))) (env x r)) as [y fr]. cbn [fst] in Sf.
+      assert (y = x') by (destruct fr; inversion Hpoll; reflexivity). subst y.
+      destruct (same_P3 c _ _ Sf) as (_&A&B&_). auto.
+    - unfold poll_normal in Hpoll.
+      pose proof (read_available_same0 c (env x r)) as S0.
+      destruct (read_available_c c (env x r)) as [x1 sd]. cbn [fst] in S0.
+      destruct S0 as (C1&T1&_&B1).
+      assert (G1 : G x1) by (destruct G0 as [A|A]; [left; auto|right; rewrite C1; exact A]).
+      assert (P1 : Forall pos_head (todo x1)) by (rewrite T1; exact P0).
+      destruct (poll_request_P3 c x1) as [P12 _]. cbn zeta in P12.
+      destruct (poll_request c x1) as [x2 u]. cbn [fst] in P12.
+      set (x3 := if sd then do_ev c EvEof (wake (tgt_task (m x2)) x2) else x2) in *.
+      assert (P23 : P3 c x2 x3).
+      { unfold x3. destruct sd; [|apply P3_refl].
+        eapply P3_trans; [|apply do_eof_P3]. apply same_P3.
+        apply same_ext with (y := x2); [apply same_refl|reflexivity..]. }
+      destruct (resp_flush_loop_P3 c F F x3) as [P34 _].
+      destruct (resp_flush_loop c F F x3) as [x4 fail]. cbn [fst] in P34.
+      assert (P14 : P3 c x1 x4) by (eapply P3_trans; [exact P12|eapply P3_trans; [exact P23|exact P34]]).
+      destruct P14 as (_&HG4&HP4&_). specialize (HG4 G1). specialize (HP4 P1).
+      destruct fail as [rr|]; [inversion Hpoll; subst; auto|].
+      set (none := match state (m x4) with SNone => true | _ => false end) in *.
+      set (x5 := if rd_disc (m x4) && none then set_shut_err true (err x4) x4 else x4) in *.
+      assert (G5 : G x5 /\ Forall pos_head (todo x5)).
+      { unfold x5. destruct (rd_disc (m x4) && none); split; assumption. }
+      destruct G5 as [G5 P5].
+      destruct (none && (wb (m x5) =? 0) && err x5); [inversion Hpoll; subst; auto|].
+      destruct (none && (wb (m x5) =? 0) && shut x5).
+      + unfold poll_shutdown_branch, poll_flush_c in Hpoll.
+        pose proof (flush_loop_same c (S (length (wscript x5))) x5) as Sf.
+        destruct (flush_loop c (S (length (wscript x5))) x5) as [y fr]. cbn [fst] in Sf.
+        assert (y = x') by (destruct fr; inversion Hpoll; reflexivity). subst y.
+        destruct (same_P3 c _ _ Sf) as (_&A&B&_). auto.
+      + inversion Hpoll; subst. split; assumption.
+  Qed.
+End WF.
+
+Section Term.
+  Variable c : cfg.
+  Variable F : nat.
+
+  (* fields the shutdown epilogue looks at *)
+  Definition frame (x y : sim) : Prop :=
+    rd_disc (m y) = rd_disc (m x) /\ state (m y) = state (m x) /\ q (m y) = q (m x) /\
+    err y = err x /\ shut y = shut x.
+
+  Lemma do_accept_fields n x : n <= wb (m x) ->
+    let y := do_ev c (EvAccept n) x in
+    frame x y /\ wb (m y) = wb (m x) - n /\ wscript y = wscript x /\ flq y = flq x.
+  Proof.
+    intro H. cbn zeta. unfold do_ev, step, guard.
+    assert (E : n <=? wb (m x) = true) by lia. rewrite E.
+    unfold frame. cbn [m err shut wscript flq]. proj. repeat split; reflexivity.
+  Qed.
+
+  Definition acc_script (ws : list wans) : Prop := exists k, 0 < k /\ ws = [WAccept k].
+
+  Lemma flush_spec x :
+    flq x = [] -> (wscript x = [] \/ acc_script (wscript x)) ->
+    let '(y, fr) := poll_flush_c c x in
+    frame x y /\ flq y = [] /\ (wscript y = [] \/ acc_script (wscript y)) /\ wb (m y) <= wb (m x) /\
+    ((fr = FlReady /\ wb (m y) = 0) \/ (fr = FlPending /\ 0 < wb (m y) /\ wscript y = [])) /\
+    (acc_script (wscript x) -> 0 < wb (m x) -> wb (m y) < wb (m x)).
+  Proof.
+    intros Hf Hw. unfold poll_flush_c.
+    destruct Hw as [Hw|(k & Hk & Hw)]; rewrite Hw; cbn [length flush_loop].
+    - destruct (0 <? wb (m x)) eqn:E.
+      + rewrite Hw. cbn [next_ans]. unfold frame. cbn [m err shut flq wscript set_out set_sock].
+        split; [repeat split; auto|]. split; [exact Hf|]. split; [left; reflexivity|]. split; [lia|].
+        split; [right; repeat split; auto; lia|]. intros (k & _ & X). discriminate.
+      + rewrite Hf. unfold frame. cbn [m err shut flq wscript set_sock tl].
+        split; [repeat split; auto|]. split; [reflexivity|]. split; [left; exact Hw|]. split; [lia|].
+        split; [left; split; [reflexivity|lia]|]. intros (k & _ & X). try rewrite Hw in X. discriminate.
+    - destruct (0 <? wb (m x)) eqn:E.
+      + rewrite Hw. cbn [next_ans].
+        assert (Z : N.min k (wb (m x)) =? 0 = false) by lia. rewrite Z.
+        set (x0 := set_sock (sock x) (eof x) [] (flq x) x).
+        assert (Hle : N.min k (wb (m x)) <= wb (m x0)) by (unfold x0; cbn [m set_sock]; lia).
+        destruct (do_accept_fields (N.min k (wb (m x))) x0 Hle) as (Fr & Wb & Ws & Fq). cbn zeta in *.
+        set (x1 := do_ev c (EvAccept (N.min k (wb (m x)))) x0) in *.
+        set (x2 := set_counts (taken x1) (started x1) (delivered x1) (pulled x1)
+                              (accepted x1 + N.min k (wb (m x))) x1).
+        assert (M2 : m x2 = m x1) by reflexivity.
+        assert (W2 : wscript x2 = []) by (unfold x2; cbn [wscript set_counts]; rewrite Ws; reflexivity).
+        assert (F2 : flq x2 = []) by (unfold x2; cbn [flq set_counts]; rewrite Fq; unfold x0; cbn [flq set_sock]; exact Hf).
+        assert (Wx0 : wb (m x0) = wb (m x)) by reflexivity.
+        destruct Fr as (a&b&d&e&g).
+        assert (FR2 : frame x x2 /\ wb (m x2) = wb (m x) - N.min k (wb (m x))).
+        { unfold frame. rewrite M2. change (err x2) with (err x1). change (shut x2) with (shut x1).
+          rewrite a, b, d, e, g, Wb. unfold x0. cbn [m err shut set_sock]. repeat split; reflexivity. }
+        destruct FR2 as (FR2 & WB2).
+        rewrite M2. destruct (0 <? wb (m x1)) eqn:E2; rewrite <- M2 in E2.
+        * rewrite W2. cbn [next_ans].
+          change (m (set_out (o_rreg (set_sock (sock x2) (eof x2) [] (flq x2) x2)) true
+                     (o_wake (set_sock (sock x2) (eof x2) [] (flq x2) x2))
+                     (set_sock (sock x2) (eof x2) [] (flq x2) x2))) with (m x2).
+          split; [exact FR2|]. split; [exact F2|]. split; [left; reflexivity|]. split; [lia|]. split; [|intros; lia].
+          right. repeat split; auto. lia.
+        * rewrite F2. cbn [tl].
+          split; [exact FR2|]. split; [reflexivity|]. split; [left; exact W2|].
+          change (m (set_sock (sock x2) (eof x2) (wscript x2) [] x2)) with (m x2).
+          split; [lia|]. split; [|intros; lia]. left. split; [reflexivity|lia].
+      + rewrite Hf. unfold frame. cbn [m err shut flq wscript set_sock tl].
+        split; [repeat split; auto|]. split; [reflexivity|]. split; [right; exists k; auto|]. split; [lia|].
+        split; [left; split; [reflexivity|lia]|]. intros _ X. lia.
+  Qed.
+
+  Definition acc_round (r : round) : bool :=
+    match r_wr r, r_fl r with [WAccept k], [] => 0 <? k | _, _ => false end.
+  Definition idle_round (r : round) : bool :=
+    match r_wr r, r_fl r with [], [] => true | _, _ => false end.
+  (* the peer's EOF has been processed, no request is running or queued, no error to surface,
+     no socket answers left over: only write_buf remains *)
+  Definition Tail (x : sim) : Prop :=
+    rd_disc (m x) = true /\ state (m x) = SNone /\ q (m x) = [] /\ err x = false /\
+    wscript x = [] /\ flq x = [].
+
+  Lemma round_cases r : acc_round r || idle_round r = true ->
+    r_fl r = [] /\ ((r_wr r = [] /\ acc_round r = false) \/ (acc_script (r_wr r) /\ acc_round r = true)).
+  Proof.
+    unfold acc_round, idle_round, acc_script. destruct (r_wr r) as [|[k| | |] [|? ?]]; destruct (r_fl r); cbn;
+      intro H; try discriminate; split; auto.
+    destruct (0 <? k) eqn:E; [|discriminate]. right. split; [exists k; split; [lia|reflexivity]|reflexivity].
+  Qed.
+
+  Lemma shutdown_branch_tail x :
+    rd_disc (m x) = true -> state (m x) = SNone -> q (m x) = [] -> err x = false ->
+    flq x = [] -> (wscript x = [] \/ acc_script (wscript x)) ->
+    let '(x', p) := poll_shutdown_branch c x in
+    p = PDone \/
+    (p = PPend /\ Tail x' /\ 0 < wb (m x) /\ wb (m x') <= wb (m x) /\
+     (acc_script (wscript x) -> wb (m x') < wb (m x))).
+  Proof.
+    intros H1 H2 H3 H4 Hf Hw. unfold poll_shutdown_branch.
+    pose proof (flush_spec x Hf Hw) as S.
+    destruct (poll_flush_c c x) as [y fr].
+    destruct S as ((a&b&d&e&_) & Fy & _ & Le & Hr & Hlt).
+    destruct Hr as [[-> _]|(-> & Hpos & Wy)]; [left; reflexivity|right].
+    split; [reflexivity|]. split; [unfold Tail; rewrite a, b, d, e; repeat split; auto|].
+    split; [lia|]. split; [exact Le|]. intro A. apply Hlt; [exact A|lia].
+  Qed.
+
+  Lemma tail_poll x r :
+    (1 <= F)%nat -> Tail x -> acc_round r || idle_round r = true ->
+    let '(x', p) := poll c F x r in
+    p = PDone \/
+    (p = PPend /\ Tail x' /\ 0 < wb (m x) /\ wb (m x') <= wb (m x) /\
+     (acc_round r = true -> wb (m x') < wb (m x))).
+  Proof.
+    intros HF (H1&H2&H3&H4&H5&H6) Hr.
+    destruct (round_cases r Hr) as [Rf Rw].
+    unfold poll.
+    set (x0 := set_hreg false (set_out false false false
+                 (set_hw (if r_hw r then hwc x + 1 else hwc x) (ticket x)
+                    (set_sock (sock x + r_add r) (eof x || r_eof r) (wscript x ++ r_wr r) (flq x ++ r_fl r) x)))).
+    assert (M0 : m x0 = m x) by reflexivity.
+    assert (W0 : wscript x0 = r_wr r) by (unfold x0; cbn [wscript set_hreg set_out set_hw set_sock]; rewrite H5; reflexivity).
+    assert (F0 : flq x0 = []) by (unfold x0; cbn [flq set_hreg set_out set_hw set_sock]; rewrite H6, Rf; reflexivity).
+    assert (E0 : err x0 = false) by exact H4.
+    assert (Ws0 : wscript x0 = [] \/ acc_script (wscript x0)) by (rewrite W0; tauto).
+    assert (Acc : acc_script (wscript x0) <-> acc_round r = true).
+    { rewrite W0. destruct Rw as [[A B]|[A B]]; rewrite B; split; auto; try discriminate.
+      intros (k & _ & X). rewrite A in X. discriminate. }
+    change (shut x0) with (shut x). destruct (shut x) eqn:Hs.
+    - pose proof (shutdown_branch_tail x0 H1 H2 H3 E0 F0 Ws0) as S.
+      destruct (poll_shutdown_branch c x0) as [x' p]. change (m x0) with (m x) in S.
+      destruct S as [S|(S1&S2&S3&S4&S5)]; [left; exact S|right].
+      split; [exact S1|]. split; [exact S2|]. split; [exact S3|]. split; [exact S4|]. intro A. apply S5, Acc, A.
+    - unfold poll_normal, read_available_c. rewrite M0, H1.
+      unfold poll_request. rewrite M0, H1.
+      assert (Cr : can_read (m x) = false) by (unfold can_read; rewrite H1; reflexivity).
+      rewrite Cr. cbn [negb]. rewrite orb_true_r.
+      destruct F as [|f]; [lia|]. cbn [resp_flush_loop poll_response]. rewrite M0, H2, H3.
+      pose proof (flush_spec x0 F0 Ws0) as S.
+      destruct (poll_flush_c c x0) as [y fr].
+      destruct S as ((a&b&d&e&g) & Fy & Wy & Le & Hres & Hlt). rewrite M0 in *.
+      assert (N5 : forall z, m z = m y -> match state (m z) with SNone => true | _ => false end = true)
+        by (intros z Ez; rewrite Ez, b, H2; reflexivity).
+      destruct Hres as [[-> Wz]|(-> & Hpos & Wy')].
+      + (* flushed completely: the epilogue re-enters through the shutdown branch *)
+        cbn [fst snd]. rewrite (N5 y eq_refl), a, H1. cbn [andb].
+        set (x5 := set_shut_err true (err y) y).
+        assert (M5 : m x5 = m y) by reflexivity. rewrite M5.
+        assert (Z : wb (m y) =? 0 = true) by (clear - Wz; lia). rewrite Z.
+        change (err x5) with (err y). change (shut x5) with true. rewrite e, E0. cbn [andb].
+        assert (R5 : rd_disc (m x5) = true) by (rewrite M5, a; exact H1).
+        assert (S5' : state (m x5) = SNone) by (rewrite M5, b; exact H2).
+        assert (Q5 : q (m x5) = []) by (rewrite M5, d; exact H3).
+        assert (E5 : err x5 = false) by (change (err x5) with (err y); rewrite e; exact E0).
+        pose proof (shutdown_branch_tail x5 R5 S5' Q5 E5 Fy Wy) as S.
+        destruct (poll_shutdown_branch c x5) as [x' p]. change (m x5) with (m y) in S.
+        destruct S as [S|(_&_&S3&_)]; [left; exact S|exfalso; clear - S3 Wz; lia].
+      + cbn [fst snd]. rewrite (N5 y eq_refl), a, H1. cbn [andb].
+        set (x5 := set_shut_err true (err y) y).
+        assert (M5 : m x5 = m y) by reflexivity. rewrite M5.
+        assert (Z : wb (m y) =? 0 = false) by (clear - Hpos; lia). rewrite Z. cbn [andb].
+        right. split; [reflexivity|].
+        split; [unfold Tail, x5; cbn [m err wscript flq wake set_out set_shut_err]; rewrite a, b, d; repeat split; auto; rewrite e; exact E0|].
+        unfold x5; cbn [m wake set_out set_shut_err]. split; [clear - Hpos Le; lia|]. split; [exact Le|]. intro A. apply Hlt; [apply Acc, A|clear - Hpos Le; lia].
+  Qed.
+
+  Fixpoint count_acc (rs : list round) : N :=
+    match rs with [] => 0 | r :: rest => (if acc_round r then 1 else 0) + count_acc rest end.
+
+  (* (2) TERMINATION AFTER EOF.  From a state in which the peer's EOF has been processed and no
+     request is running or queued, against a socket that is idle or accepts at least one byte per
+     round, the connection future completes (Ready(Ok)) no later than the round with the
+     (|write_buf| + 1)-th accepting answer. *)
+  Theorem terminates_after_eof : forall rs x,
+    (1 <= F)%nat -> Tail x -> Forall (fun r => acc_round r || idle_round r = true) rs ->
+    wb (m x) < count_acc rs ->
+    snd (polls c F x rs) = PDone.
+  Proof.
+    induction rs as [|r rest IH]; intros x HF HT Hall Hc; [cbn in Hc; lia|].
+    inversion Hall as [|? ? Hr Hrest]; subst. cbn [polls].
+    pose proof (tail_poll x r HF HT Hr) as S.
+    destruct (poll c F x r) as [x1 p].
+    destruct S as [->|(-> & T1 & Hpos & Hle & Hlt)].
+    - destruct rest; reflexivity.
+    - assert (Hc' : wb (m x1) < count_acc rest).
+      { cbn [count_acc] in Hc. destruct (acc_round r) eqn:E; [specialize (Hlt eq_refl)|]; lia. }
+      destruct rest as [|r' rest']; [cbn in Hc'; lia|]. apply IH; auto.
+  Qed.
+
+  (* explicit bound: |write_buf| + 1 accepting rounds suffice *)
+  Corollary terminates_within x rs :
+    (1 <= F)%nat -> Tail x -> Forall (fun r => acc_round r = true) rs -> lenN rs = wb (m x) + 1 ->
+    snd (polls c F x rs) = PDone.
+  Proof.
+    intros HF HT Hall Hlen. apply terminates_after_eof; auto.
+    - eapply Forall_impl; [|exact Hall]. intros r H. rewrite H. reflexivity.
+    - assert (E : count_acc rs = lenN rs).
+      { clear Hlen. induction rs as [|r rest IH]; [reflexivity|]. inversion Hall; subst.
+        cbn [count_acc]. rewrite H1, IH by assumption. unfold lenN. cbn [length]. lia. }
+      lia.
+  Qed.
+End Term.
